@@ -1007,3 +1007,126 @@ func confinedPointer(v ssa.Value) bool {
 	}
 	return rec(v, 0)
 }
+
+// reachingCellDefs is privateCellDefs made flow-sensitive: of the stores into the private cell that v loads, only
+// those that can be the last one before the load (some way from the store to the load passes no other store into
+// the cell); zero reports whether the load can be reached from the allocation without passing any store.
+func reachingCellDefs(v ssa.Value) (defs []cellDef, zero bool, ok bool) {
+	all, _, ok := privateCellDefs(v)
+	if !ok {
+		return nil, false, false
+	}
+	ld := v.(*ssa.UnOp)
+	var al *ssa.Alloc
+	switch a := ld.X.(type) {
+	case *ssa.Alloc:
+		al = a
+	case *ssa.FieldAddr:
+		al, _ = a.X.(*ssa.Alloc)
+	}
+	if al == nil {
+		return nil, false, false
+	}
+	isStore := map[ssa.Instruction]bool{}
+	for _, d := range all {
+		isStore[d.store] = true
+	}
+	// reach: some way from just after `from` to the load passes no store into the cell
+	reach := func(from ssa.Instruction) bool {
+		b := from.Block()
+		past := false
+		for _, in := range b.Instrs {
+			if in == from {
+				past = true
+				continue
+			}
+			if !past {
+				continue
+			}
+			if in == ssa.Instruction(ld) {
+				return true
+			}
+			if isStore[in] {
+				return false
+			}
+		}
+		seen := map[*ssa.BasicBlock]bool{}
+		stack := append([]*ssa.BasicBlock{}, b.Succs...)
+		for len(stack) > 0 {
+			x := stack[len(stack)-1]
+			stack = stack[:len(stack)-1]
+			if seen[x] {
+				continue
+			}
+			seen[x] = true
+			killed := false
+			for _, in := range x.Instrs {
+				if in == ssa.Instruction(ld) {
+					return true
+				}
+				if isStore[in] {
+					killed = true
+					break
+				}
+			}
+			if !killed {
+				stack = append(stack, x.Succs...)
+			}
+		}
+		return false
+	}
+	for _, d := range all {
+		if reach(d.store) {
+			defs = append(defs, d)
+		}
+	}
+	return defs, reach(al), true
+}
+
+// deepDefsCells is deepDefs that also looks through loads of private memory cells (a local variable or a field of a
+// local struct that is only read and written in place: `var run struct{exe *Execution; err error}`): such a load
+// resolves to the values of the stores that can reach it, and to a nil/zero constant of its type when it can see
+// the cell before any store.
+func deepDefsCells(v ssa.Value, scope []*ssa.Function) []ssa.Value {
+	var out []ssa.Value
+	seen := map[ssa.Value]bool{}
+	var rec func(v ssa.Value, depth int)
+	rec = func(v ssa.Value, depth int) {
+		for _, d := range deepDefs(v, scope) {
+			if seen[d] {
+				continue
+			}
+			seen[d] = true
+			if depth < 8 {
+				if _, isFA := cellFieldLoad(d); isFA {
+					if defs, zero, ok := reachingCellDefs(d); ok && (len(defs) > 0 || zero) {
+						for _, cd := range defs {
+							rec(cd.v, depth+1)
+						}
+						if zero {
+							out = append(out, ssa.NewConst(nil, d.Type()))
+						}
+						continue
+					}
+				}
+			}
+			out = append(out, d)
+		}
+	}
+	rec(v, 0)
+	return out
+}
+
+// cellFieldLoad: v is a load of a field of a local struct variable.
+func cellFieldLoad(v ssa.Value) (*ssa.FieldAddr, bool) {
+	ld, ok := v.(*ssa.UnOp)
+	if !ok || ld.Op != token.MUL {
+		return nil, false
+	}
+	fa, ok := ld.X.(*ssa.FieldAddr)
+	if !ok {
+		return nil, false
+	}
+	_, isAl := fa.X.(*ssa.Alloc)
+	return fa, isAl
+}
